@@ -6,9 +6,9 @@ HOOKS = {
     "add_only": True,
 }
 ENGINES = [
-    {"name": "benum", "path": "engine/benum", "serves_properties": ["C04", "C06", "C09", "C10", "C11", "C12", "C13", "C14", "C15", "C16", "C17", "C18", "C20"],
+    {"name": "benum", "path": "engine/benum", "serves_properties": ["C03", "C04", "C06", "C08", "C09", "C10", "C11", "C12", "C13", "C14", "C15", "C16", "C17", "C18", "C20"],
      "kind_free_text": "bounded exhaustive enumeration runtime: rank<->case bijections, 16-way sharding, fork isolation with progress cell, line protocol to the driver"},
-    {"name": "vsched", "path": "engine/vsched", "serves_properties": ["C05", "C07", "C19"],
+    {"name": "vsched", "path": "engine/vsched", "serves_properties": ["C05", "C07", "C08", "C19"],
      "kind_free_text": "cooperative scheduler by link-time interposition of pthread mutex/cond/create/join, futex syscall and clock_gettime + stateless DFS explorer with iterative deviation bounding, 16 forked workers sharing a work stack, determinism re-runs, deadlock/livelock/hang detection, replay of recorded choice sequences"},
     {"name": "spin", "path": "engine/spin", "serves_properties": ["C19"],
      "kind_free_text": "Promela model of thread::Queue at the granularity of vsched scheduling steps; Spin 6.5 explores all interleavings (safety), accepts every implementation schedule (impl->model) and emits every model path for scripted replay on the real code (model->impl); driver checks/C19/spin.py"},
@@ -19,6 +19,12 @@ NOTES = ("All checks decide by exhaustive enumeration inside stated bounds (see 
          "failed (build or harness error) and is not a verdict.")
 NOT_APPLICABLE = {}
 CHECKS = {
+    "C03": {
+        "engine": "benum", "level": "exploration",
+        "technique": "exhaustive enumeration of complete edit neighbourhoods (every truncation, every single-byte substitution/deletion/insertion, every length field x boundary values, every structural unit deleted/duplicated, every string slot overlong, all byte strings of length <= 2|3) of 39 small valid seed files in the four formats, each parsed under ASan in NDEBUG and assert builds in forked children with an explicit extent-checking traversal of every delivered item",
+        "text": "For 39 spec-generated seeds (PBF raw/zlib/lz4, o5m/o5c, XML, OPL, gz/bz2 variants) every edit of the classes E1-E9 (truncations, byte substitutions with 17 | 255 values, deletions/insertions, pairs within 16 bytes (thorough), length fields and string-table indexes x 14 boundary values with and without recomputed framing, tiny files, overlong strings, deleted/duplicated structural units) is parsed through the real parsers and the Reader in two ASan builds; termination, exception type, sanitizer reports, aborts and the extents of every delivered item, sub-item and string are checked.",
+        "note": "Coverage-guided mutation named in the property is sampling and is not used; inputs more than one or two edits away from a valid file are outside the enumerated neighbourhood. UBSan-type findings are not part of the oracle.",
+    },
     "C04": {
         "engine": "benum", "level": "model_checking",
         "technique": "explicit-state breadth-first search over builder/buffer operation histories on the real Buffer for every initial capacity 64..640 step 8 x auto_grow {no,yes,internal}, canonical states from the buffer bytes, reference model compared after every operation (ASan, NDEBUG and assert builds, fork isolated)",
@@ -32,6 +38,12 @@ CHECKS = {
         "technique": "exhaustive enumeration of segmentations (every single cut, every pair of cuts, all uniform piece sizes, one-byte pieces around every position) of spec-generated seed files and all their truncations, delivered to the real parsers through a pre-filled input queue, a chunking decompressor under the full Reader, small input buffers and short read(2) answers; result compared with the one-piece baseline",
         "text": "46 seed files in OPL, XML, o5m/o5c and PBF (written by specification-derived encoders) and every proper prefix of two seeds per format are parsed under every single cut, every uniform piece size, one-byte pieces around every position and every pair of cuts (quick: pairs on the 30 small seeds; thorough: all seeds and prefixes), through four delivery paths (parser on a pre-filled queue, full Reader with a chunking decompressor, real plain/gzip/bzip2 files with input buffer sizes 1,2,3,5,7,64, short reads at every offset); header, object dump and error type/message must equal the unsplit baseline.",
         "note": "Three or more simultaneous cuts are only covered through the uniform and one-byte families; across the PBF fd path and queue path only header, objects and eof-or-error are compared (the error wording differs by design).",
+    },
+    "C08": {
+        "engine": "benum", "level": "fault_enumeration",
+        "technique": "exhaustive enumeration of OS fault plans on the real Writer (every byte offset via RLIMIT_FSIZE and interposed write/fwrite with ENOSPC/EIO, every n-th write/fsync/close/fwrite/fflush/fclose failing, EINTR once, every short-write length, encoder failure at every position) x formats x compressions x fsync x histories in forked children; plus stateless schedule exploration (vsched, <= 1|2 deviations) of the Writer with a failing mock compressor / encoder",
+        "text": "{xml, opl, pbf} x {none, gz, bz2} x fsync {no, yes} x five write histories x queue/pool sizes x fast|paced producer: the first write reaching every byte offset of the output fails (kernel EFBIG through RLIMIT_FSIZE; ENOSPC/EIO through interposed write/fwrite), every n-th write/fsync/close/fwrite/fflush/fclose fails, EINTR once, short writes of every length, the OPL encoder throws at every way position; either a call throws or the file is complete (own inflate/bzip2 framing check + Reader decode equals the objects handed over) and close() returns its size; a fired injector followed by success is 'error-lost'; a Writer in error state must refuse data; threads must finish. The vsched harness explores all schedules with <= 1|2 deviations of Writer + failing mock compressor.",
+        "note": "bzip2 gets ENOSPC/EIO at the stdio level only (write() inside glibc's stdio cannot be interposed; the kernel EFBIG fault covers that path); quick strides the offsets of the larger histories (boundaries +-1 always included), thorough enumerates every offset for the small histories. Descriptor/memory leaks on error paths are counted, not judged.",
     },
     "C09": {
         "engine": "benum", "level": "fault_enumeration",
